@@ -237,11 +237,53 @@ func c13Handler(w *vfWorld, ck *http.Cookie, cfg c13Cfg, raw string, clientID st
 	return false, "", "", fmt.Sprintf("handler|%s|code-sent|%s", cfg.Name, why)
 }
 
+// c13LoadedConfigs: the same client configurations written the way the documentation
+// shows them in the configuration FILE and loaded with the real loadVerifyConfigFile.
+func c13LoadedConfigs(c *vfeng.Ctx) {
+	var sb strings.Builder
+	sb.WriteString("  default_email_domain: example.com\n  clients:\n")
+	for _, cfg := range c13Cfgs() {
+		fmt.Fprintf(&sb, "    - client_id: %q\n      client_secret: \"s\"\n", "client-"+cfg.Name)
+		if len(cfg.Domains) > 0 {
+			sb.WriteString("      allowed_redirect_domains:\n")
+			for _, d := range cfg.Domains {
+				fmt.Fprintf(&sb, "        - %q\n", d)
+			}
+		}
+		if len(cfg.Patterns) > 0 {
+			sb.WriteString("      allowed_redirect_url_re:\n")
+			for _, p := range cfg.Patterns {
+				fmt.Fprintf(&sb, "        - '%s'\n", strings.ReplaceAll(p, "'", "''"))
+			}
+		}
+	}
+	w, err := vfLoadedWorldSections(map[string]string{"allowed_auth_backends_for_webui": "[password]"}, map[string]string{"openid_connect_idp": sb.String()})
+	if err != nil {
+		c.Res.HarnessErr = "loading a generated configuration failed: " + err.Error()
+		return
+	}
+	defer w.Close()
+	ck := w.vfCookie("alice", AuthTypePassword)
+	urls := append(c13Liveness(), "https://app.example.com/other", "https://user-pages.example.com/~mallory/collect", "https://evil.com/cb", "https://app.example.com/x/cb", "https://xexample.com/cb", "http://app.example.com/cb", "https://app.example.com/cb?x=1")
+	for _, cfg := range c13Cfgs() {
+		for _, raw := range urls {
+			v, key, what, class := c13Handler(w, ck, cfg, raw, "client-"+cfg.Name)
+			c.Eval(1)
+			pt := map[string]interface{}{"part": "loaded-config", "cfg": cfg.Name, "raw": raw}
+			if v {
+				c.Violate(key+"|configuration-file", what+" (client configuration loaded from a file)", pt)
+			} else {
+				c.Class("loaded-"+class, pt)
+			}
+		}
+	}
+}
+
 func init() {
 	vfRegister(&vfeng.Check{
 		ID:    "C13",
 		Level: "model_checking",
-		Rule:  "exhaustive URL grammar (scheme x userinfo x host x port x path x query x fragment) x 8 client configurations on the real CanRedirectToURL, and every 7th string plus all liveness rows through the real /idp/oauth2/authorize judging the emitted Location; oracle: independent WHATWG-subset parser decides the host a browser navigates to; class = (config, accepted, reason)",
+		Rule:  "the 8 client configurations written into a generated configuration file and loaded with the real loadVerifyConfigFile x 13 URLs through the real authorization handler; exhaustive URL grammar (scheme x userinfo x host x port x path x query x fragment) x 8 client configurations on the real CanRedirectToURL, and every 7th string plus all liveness rows through the real /idp/oauth2/authorize judging the emitted Location; oracle: independent WHATWG-subset parser decides the host a browser navigates to; class = (config, accepted, reason)",
 		Assumptions: []string{"WHATWG URL parsing is modelled by a 150-line subset (ASCII hosts only; IDNA / non-ASCII out of scope)", "an explicit port on an allowed host is the same host; a bare '?' and fragments are observed, not judged (DESIGN 2.5)", "for pattern-only clients the operator's pattern is the whole host policy"},
 		Bounds: func(tier string) map[string]interface{} {
 			n := c13Enumerate(func(int, string) {})
@@ -249,6 +291,9 @@ func init() {
 		},
 		Shards: func(tier string) int { return 16 },
 		Run: func(c *vfeng.Ctx) {
+			if c.Shard == c.NShards-1 {
+				c13LoadedConfigs(c)
+			}
 			cfgs := c13Cfgs()
 			w := c13World()
 			defer w.Close()
@@ -309,6 +354,17 @@ func init() {
 			}
 		},
 		Replay: func(c *vfeng.Ctx, raw json.RawMessage) (bool, string) {
+			var lp struct {
+				Part string `json:"part"`
+			}
+			if json.Unmarshal(raw, &lp) == nil && lp.Part == "loaded-config" {
+				n := len(c.Res.Violations)
+				c13LoadedConfigs(c)
+				if len(c.Res.Violations) > n {
+					return true, c.Res.Violations[n].Key + " :: " + c.Res.Violations[n].What
+				}
+				return false, "client configurations loaded from a file are enforced"
+			}
 			var p c13Point
 			if err := json.Unmarshal(raw, &p); err != nil {
 				return false, err.Error()
